@@ -88,6 +88,10 @@ def build_support():
         steps.append(('tokio', os.path.join(VERIF, 'contracts/prelude/vx_tokio.rs'),
                       ['--extern', 'bytes=' + bytes_rlib, '--extern', 'vx_base=' + os.path.join(d, 'libvx_base.rlib'), '--import', 'vx_base=' + os.path.join(d, 'vx_base.vir')],
                       'libtokio.rlib', 'vx_tokio.vir'))
+    if os.path.exists(os.path.join(VERIF, 'contracts/prelude/vx_nom.rs')):
+        steps.append(('nom', os.path.join(VERIF, 'contracts/prelude/vx_nom.rs'),
+                      ['--extern', 'vx_spec=' + os.path.join(d, 'libvx_spec.rlib'), '--import', 'vx_spec=' + os.path.join(d, 'vx_spec.vir')],
+                      'libnom.rlib', 'vx_nom.vir'))
     for (crate, src, extra, rlib, vir) in steps:
         cmd = ['verus'] + VERUS_COMMON + ['--crate-name', crate, '-L', 'dependency=' + DEPS, '-L', 'dependency=' + d] + extra + \
               ['--compile', '--export', os.path.join(d, vir), '-o', os.path.join(d, rlib), '--output-json', '--time', '--rlimit', '60', src]
@@ -242,8 +246,13 @@ def _run_unit_once(name, scratch, support_dir, tier, seed, rlimit=30, extra_flag
     for f in sorted({x['file'] for x in ur.report['functions']} | {x['file'] for x in ur.report['items']}):
         ur.linemaps[f] = splicer.build_linemap(os.path.join(root, f))
     cmd = ['verus'] + VERUS_COMMON + ['--crate-name', u['crate'], '-L', 'dependency=' + DEPS, '-L', 'dependency=' + support_dir, '-L', 'dependency=' + scratch]
+    nom = os.path.join(support_dir, 'libnom.rlib')
     for e in u['externs']:
+        if e == 'nom' and os.path.exists(nom): continue
         cmd += ['--extern', '%s=%s' % (e, dep(e))]
+    if os.path.exists(nom):
+        # nom stand-in (contracts/prelude/vx_nom.rs): ASSUMED combinator contracts, in place of the real crate
+        cmd += ['--extern', 'nom=' + nom, '--import', 'nom=' + os.path.join(support_dir, 'vx_nom.vir')]
     tok = os.path.join(support_dir, 'libtokio.rlib')
     if os.path.exists(tok):
         cmd += ['--extern', 'tokio=' + tok, '--import', 'tokio=' + os.path.join(support_dir, 'vx_tokio.vir')]
